@@ -112,4 +112,70 @@ PROPS = {
             "completeness of the folding argument (an honest proof verifies) is not decided here",
         ],
     },
+    "C02": {
+        "units": ["verify_rel", "verify", "transcripts"],
+        "design_ref": "DESIGN.md section 7, C02",
+        "technique": "contract-based deductive verification (Verus) of the real verify(): loop invariants pin every scalar of the final multiscalar product to a specification function (closed forms for d and s, reference recurrences for the sums), accumulated over the batch; postcondition 'Ok only if the specified residual is the identity'",
+        "claim": "verify() is proved, for every batch, configuration, capacity mix and parsed proof, to return Ok in a verifying mode only if batch_residual(...) == identity, where "
+                 "batch_residual is an explicit specification of the whole verification equation: for every proof p with nonzero weight w_p and challenges equal to the transcript "
+                 "oracle on the specified log (C04): G_q gets w(r1*e*y^-q*s_q + e^2 z), H_q gets w(s1*e*s_{nm-1-q} - e^2(d_q*y^{nm-q} + z)) for q < n*m and nothing beyond, with "
+                 "d_q = z^{2(j+1)} 2^i in closed form and s_q = s_0 * prod of e_j^2 over the set bits of q; commitment j gets w(-e^2 z^{2(j+1)} y^{nm+1}); the value generator gets "
+                 "w(r1*y*s1 + e^2(y^{nm+1} z d_sum + (z^2 - z) y_sum)) minus promise_j times the commitment scalar; G'_k gets w*d1_k; A1, B, A, L_j, R_j get w(-e), -w, w(-e^2), "
+                 "w(-e^2)e_j^2, w(-e^2)e_j^-2; the static scalars are the interleaving of the G and H scalars of the largest member padded with zeros to the table size. Shape checks "
+                 "(L/R counts equal, 2^rounds == n*m, d1 length == degree) and decodability of every point are postconditions of Ok. That the equation implies the range statement "
+                 "is knowledge soundness under discrete log and is not decidable here.",
+        "assumptions": [
+            "curve25519-dalek precomputed vartime_mixed_multiscalar_mul returns msm(static, table) + msm(dynamic) and asserts the two length equalities; Scalar::batch_invert returns element-wise inverses and the product of inverses",
+            "d_sum and y_sum are pinned at the level of their reference recurrences (doubling trick, y(y^nm - 1)/(y - 1)); the lemmas equating them with sum_j z^2j and sum_i y^i are pure algebra and listed only when discharged; s_0 is the computed product of inverses times y(y-1) (equal to prod e_j^-1 when y != 1, probability 1 - 2^-252)",
+            "that the precomputation table of a RangeParameters object consists of its G_i/H_i generators interleaved is part of BulletproofGens::new's contract (unit gens)",
+            "the relation implies value - promise in [0, 2^bits) only under the discrete-log assumption (paper); not a deductive fact",
+        ],
+    },
+    "C05": {
+        "units": ["verify", "verify_rel", "transcripts"],
+        "design_ref": "DESIGN.md section 7, C05",
+        "technique": "contract-based deductive verification (Verus): every proof element and statement field is proved to occur in the specified transcript log before the challenges that must depend on it, or in the specified residual; shape checks and point decoding are postconditions of Ok; rejections are Err values (panic freedom)",
+        "claim": "Proved on the real verifier: (i) A, every L_j/R_j, A1, B and all statement data are absorbed before the challenges that follow them (C04) and r1, s1, every d1_k are absorbed "
+                 "before the batch weights are derived (C08); (ii) every scalar and point of the proof and every commitment, promise and generator occurs in the specified residual "
+                 "with the specified coefficient (C02); (iii) Ok implies equal L/R counts, 2^rounds == bits*aggregation, d1 length == extension degree for every member, and that "
+                 "every point of every member decodes; (iv) every rejection is an Err value, never a panic (C16). That an altered element makes the residual nonzero needs "
+                 "independence of the generators (discrete log) and the random oracle: not decidable by contracts.",
+        "assumptions": [
+            "rejection of a single altered element is a cryptographic statement (discrete log + random oracle) and is not claimed; what is proved is that no element is ignored",
+            "nonzero-ness of each coefficient (w, e, y, s_i != 0) follows from the challenge and weight contracts; the per-element lemma is not separately stated",
+        ],
+    },
+    "C07": {
+        "units": ["prove", "transcripts", "verify", "verify_rel"],
+        "design_ref": "DESIGN.md section 7, C07",
+        "technique": "contract-based deductive verification (Verus): prover refusal iff value < promise (part of the C06 iff-contract), promise absorbed as promise_val (None == Some(0)), verifier range check, promise term of the value-generator scalar",
+        "claim": "Proved: the prover returns Ok only if promise_j <= value_j for every position j and never refuses value == promise; both transcripts absorb promise_val(p_j) so an "
+                 "absent promise and Some(0) are indistinguishable; the consistency check returns Ok only if every present promise p satisfies p >> bits == 0 (bits < 64); the verifier's "
+                 "value-generator scalar contains exactly - promise_j * w(-e^2 z^{2(j+1)} y^{nm+1}) for each present promise, position-wise, and nothing for an absent one. That a proof "
+                 "made under p is rejected under p' != p is the random-oracle binding of the transcript (the promise is in the log) - cryptographic, assumed.",
+        "assumptions": ["binding of the proof to the promise vector is by the transcript (random oracle), not a deductive fact"],
+    },
+    "C08": {
+        "units": ["verify", "verify_rel", "transcripts", "nonce"],
+        "design_ref": "DESIGN.md section 7, C08",
+        "technique": "contract-based deductive verification (Verus): ghost model of merlin's transcript RNG (key = log, witness rekeys, external draw); weight provenance as loop invariants of the real verify()",
+        "claim": "Proved on the real verify(): for every proof p of a chunk the responses r1, s1 and every d1_k are absorbed into transcript p, an RNG keyed by that complete log yields one "
+                 "u64 that is absorbed into the weight transcript under label \"proof\"; the weight RNG is built once, from the weight transcript after ALL proofs were absorbed; "
+                 "weight p is the p-th first-nonzero draw of that single stream (random_not_zero, verified against its loop), hence nonzero; each weight multiplies every term "
+                 "contributed by its proof and nothing else (C02). That the resulting function behaves like a random oracle, so that defects cannot be made to cancel, is assumed.",
+        "assumptions": ["merlin's TranscriptRng output is an uninterpreted PRF of (absorbed log, rekey witnesses, external draw, counter); NullRng is stateless and yields zeros",
+                        "unpredictability of the weights (ratios change with every response scalar) is the PRF/random-oracle assumption"],
+    },
+    "C10": {
+        "units": ["verify", "nonce"],
+        "design_ref": "DESIGN.md section 7, C10",
+        "technique": "contract-based deductive verification (Verus): one position-wise mask specification for both recovering modes; totality of nonce derivation on the verifier's arguments",
+        "claim": "Proved: in RecoverOnly and RecoverAndVerify every Ok result carries, for every member, the same value mask_spec(seed, proof, challenges) (one specification function, "
+                 "independent of the mode), None in VerifyOnly and for members without a seed; the value is a function of the statement's seed through the nonce KDF only; nonce() "
+                 "cannot fail on the labels and indices the verifier uses, so a wrong seed yields a value, not an error. The specification of the residual (C02) and of the weights (C08) "
+                 "does not mention the seed. Not decided: that a different seed yields a different value (PRF property of Blake2b); the full iff-characterisation of Ok/Err "
+                 "(needed to state that the verdict is literally the same function with and without a seed) is not written.",
+        "assumptions": ["a different seed gives a different mask only under the PRF assumption on keyed Blake2b",
+                        "verdict independence is argued from the seed-free residual/weight specifications; an Err-characterisation of verify is not proved"],
+    },
 }
